@@ -24,8 +24,8 @@ CONSTANTS DirNames,      \* directory name pool
           MaxFiles
 
 (* standard instantiations (a .cfg file cannot write functions): FileLang <- StdFileLang2 etc. *)
-StdFileLang2 == ("f.py" :> "Python") @@ ("g.c" :> "C")
-StdFileLang3 == ("f.py" :> "Python") @@ ("g.c" :> "C") @@ ("h.py" :> "Python")
+StdFileLang2 == ("a0.py" :> "Python") @@ ("g.c" :> "C")      \* a0.py: a file whose name starts with the directory name a
+StdFileLang3 == ("a0.py" :> "Python") @@ ("g.c" :> "C") @@ ("h.py" :> "Python")
 StdMeasLists == { <<>>, <<10, 31>>, <<16, 61>> }
 StdMeasLists4 == { <<>>, <<15>>, <<30, 31>>, <<60, 61, 2>> }
 
